@@ -15,7 +15,24 @@ def observe(tier):
         records["R:" + cfg] = n
         tlc.append({"cfg": cfg, "cmd": g.describe(), "states": g.stats["distinct"], "transitions": g.n_lines,
                     "wall_s": round(g.wall, 1)})
-    return {"judge": [("JudgeCard.tla", "JudgeCard.cfg", files)],
+    extra = {}
+    if tier == "thorough":
+        # unbounded part: Apalache proves CardNF(FormatCard((a, b))) for ALL integers a, b (model level)
+        import subprocess, shutil
+        out = os.path.join(C.BUILD, "apalache_card")
+        shutil.rmtree(out, ignore_errors=True)
+        try:
+            p = subprocess.run(["apalache-mc", "check", "--init=Init", "--next=Next", "--inv=Inv", "--length=0", "--out-dir=" + out,
+                                "CardNFUnbounded.tla"], cwd=os.path.join(C.SPEC, "apalache"), stdout=subprocess.PIPE, stderr=subprocess.STDOUT,
+                               text=True, timeout=600)
+            res = "NoError" if "The outcome is: NoError" in p.stdout else "FAILED"
+        except Exception as e:
+            res = "not run: %s" % type(e).__name__
+        shutil.rmtree(out, ignore_errors=True)
+        extra["apalache_unbounded_CardNF"] = res
+        if res == "FAILED":
+            raise C.MachineryError("Apalache: the normal-form rules of the model do not yield a normal form for all integers\n" + p.stdout[-2000:])
+    return {"extra": extra, "judge": [("JudgeCard.tla", "JudgeCard.cfg", files)],
             "tlc": tlc,
             "records": records,
             "explanation": "exhaustive grid: 3 cardinality kinds x every normal-form cardinality over -1..4/None x child counts 0..5 x every "
